@@ -202,7 +202,12 @@ def run(ctx):
                 if key not in reported:
                     again = one_case(ctx, binary, f, res, n1, tag + "-confirm")
                     if g not in again:
-                        raise vlib.InfraError("%s did not reproduce on re-execution (%s)" % (key, sorted(again)))
+                        again = one_case(ctx, binary, f, res, n1, tag + "-confirm2")
+                    if g not in again:
+                        # uniform verdict policy: recorded, not a verdict, not exit 2
+                        vlib.log("  %s did not reproduce on re-execution (%s)" % (key, sorted(again)))
+                        cov.setdefault("unreproduced", []).append({"key": key, "fault": {k: res[k] for k in ("fault", "line", "part", "off", "ch")}})
+                        continue
                     reported.add(key)
                 what = "%s (%s in the %s of a '%s' line%s)" % (WHAT.get(g, g), res["fault"], res["part"], v["tag"],
                                                                 (": " + res["msg"][:120]) if res.get("msg") else "")
